@@ -485,7 +485,6 @@ macro_rules! unary_name {
     }
 }
 
-unary_name!(abs, Float, Int);
 unary_name!(signum, Float, Int);
 unary_name!(sin, Float);
 unary_name!(round, Float);
@@ -519,6 +518,19 @@ macro_rules! unary_op {
         unary_match!($name, unary_match_op, $(($ops, $variants)),+);
     }
 }
+
+unary_op!(
+    abs,
+    (
+        |a: I| if a == I::min_value() {
+            Val::Error(exerr!("overflow in abs of {:?}", a))
+        } else {
+            Val::Int(a.abs())
+        },
+        Int
+    ),
+    (|a: F| Val::Float(a.abs()), Float)
+);
 
 unary_op!(
     fact,
